@@ -6,6 +6,7 @@
 #include <nstd/Variant.hpp>
 #include <nstd/RefCount.hpp>
 #include <nstd/List.hpp>
+#include <nstd/Document/Xml.hpp>
 #include <pthread.h>
 #include <sched.h>
 
@@ -95,13 +96,14 @@ static void ptrSeq() {
 enum { MAXP = 3, MAXT = 8 };
 struct SModel { char b[96]; int n; };
 struct VModel { int kind; /* 0 string 1 list */ char b[96]; int n; long items[40]; int ni; };
-struct Slot { String s; SModel sm; Variant v; VModel vm; PP p; long pm; bool full; };
+struct XModel { int kind; /* 0 element 1 text */ long line; char b[40]; int n; };
+struct Slot { String s; SModel sm; Variant v; VModel vm; PP p; long pm; Xml::Variant x; XModel xm; bool full; };
 static Slot* g_mail; static pthread_mutex_t g_mailLock = PTHREAD_MUTEX_INITIALIZER;
 static int g_go = 0;
 
 struct TState {
   int idx, P; u64 seed; int nops; pthread_t th; int cpu;
-  String* s; SModel sm[MAXP]; Variant* v; VModel vm[MAXP]; PP* p; long pm[MAXP];
+  String* s; SModel sm[MAXP]; Variant* v; VModel vm[MAXP]; PP* p; long pm[MAXP]; Xml::Variant* x; XModel xm[MAXP];
   long ops, sharedOps, mods, mailOps;
 };
 
@@ -115,12 +117,35 @@ static void checkV(const Variant& v, const VModel& m, const char* what) {
     int k = 0; for (List<Variant>::Iterator it = l.begin(), e = l.end(); it != e; ++it, ++k) if (it->toInt64() != m.items[k]) fail("Variant/shared-payload/foreign-modification", "%s: list item %d is %lld, model %ld", what, k, (long long)it->toInt64(), m.items[k]); }
 }
 
+static void checkX(const Xml::Variant& x, const XModel& m, const char* what) {
+  if (m.kind == 0) { if (!x.isElement()) fail("Xml.Variant/shared-payload/foreign-modification", "%s: Xml::Variant is no longer an element", what); const Xml::Element& e = ((const Xml::Variant&)x).toElement();
+    if (e.line != (int)m.line || e.type.length() != (usize)m.n || memcmp((const char*)e.type, m.b, (size_t)m.n) != 0) fail("Xml.Variant/shared-payload/foreign-modification", "%s: element (line %d, type \"%.30s\") differs from this thread's model (line %ld)", what, e.line, (const char*)e.type, m.line); }
+  else { String t = x.toString(); if (!x.isText() || t.length() != (usize)m.n || memcmp((const char*)t, m.b, (size_t)m.n) != 0) fail("Xml.Variant/shared-payload/foreign-modification", "%s: text Xml::Variant differs from this thread's model", what); }
+}
+
 static void* concMain(void* a) {
   TState& t = *(TState*)a; Rng r(t.seed, 901, (u64)t.idx);
   if (t.cpu >= 0) { cpu_set_t cs; CPU_ZERO(&cs); CPU_SET(t.cpu, &cs); pthread_setaffinity_np(pthread_self(), sizeof cs, &cs); }
   while (!__atomic_load_n(&g_go, RLX)) sched_yield();
   for (int o = 0; o < t.nops; ++o) {
     int k = (int)r.below(100), i = (int)r.below((u64)t.P), j = (int)r.below((u64)t.P);
+    if (r.chance(1, 5)) { // Xml::Variant handles
+      int xk = (int)r.below(10); XModel& m = t.xm[i];
+      if (xk < 3) { Xml::Variant tmp(t.x[i]); checkX(tmp, m, "temporary copy"); }
+      else if (xk < 5) { t.x[i] = t.x[j]; m = t.xm[j]; }
+      else if (xk < 8) { ++t.mods; if (m.kind == 0) { Xml::Element& e = t.x[i].toElement(); e.line = (int)++m.line; if (r.chance(1, 4) && m.n < 30) { char c = (char)('a' + r.below(26)); e.type.append(c); m.b[m.n++] = c; } }
+                         else { m.n = (int)r.range(1, 30); for (int q = 0; q < m.n; ++q) m.b[q] = (char)('k' + r.below(10)); t.x[i] = String(m.b, (usize)m.n); } }
+      else checkX(t.x[i], m, "read");
+      ++t.ops; continue;
+    }
+    if (k >= 20 && k < 30 && r.chance(1, 2)) { // in-place modifiers other than append: each must detach a shared payload first
+      SModel& m = t.sm[i]; int mk = (int)r.below(4); ++t.mods;
+      if (mk == 0 && m.n < 90) { t.s[i].append(' '); m.b[m.n++] = ' '; }
+      else if (mk == 1) { t.s[i].trim(); int a0 = 0, b0 = m.n; while (a0 < b0 && strchr(" \t\r\n\v", m.b[a0])) ++a0; while (b0 > a0 && strchr(" \t\r\n\v", m.b[b0 - 1])) --b0; memmove(m.b, m.b + a0, (size_t)(b0 - a0)); m.n = b0 - a0; }
+      else if (mk == 2) { t.s[i].toUpperCase(); for (int q = 0; q < m.n; ++q) if (m.b[q] >= 'a' && m.b[q] <= 'z') m.b[q] = (char)(m.b[q] - 32); }
+      else { char from = (char)('a' + r.below(26)), to = (char)('a' + r.below(26)); t.s[i].replace(from, to); for (int q = 0; q < m.n; ++q) if (m.b[q] == from) m.b[q] = to; }
+      checkS(t.s[i], m, "after in-place modifier"); ++t.ops; continue;
+    }
     if (k < 12) { String tmp(t.s[i]); checkS(tmp, t.sm[i], "temporary copy"); }
     else if (k < 20) { t.s[i] = t.s[j]; t.sm[i] = t.sm[j]; }
     else if (k < 30) { if (t.sm[i].n < 90) { char c = (char)('a' + r.below(26)); t.s[i].append(c); t.sm[i].b[t.sm[i].n++] = c; } else { t.s[i] = t.s[j]; t.sm[i] = t.sm[j]; } ++t.mods; }
@@ -138,16 +163,16 @@ static void* concMain(void* a) {
     else if (k < 93) { Pay* n = new Pay; drop(t.pm[i]); t.p[i] = n; t.pm[i] = n->id; hold(t.pm[i]); }
     else { // mailbox: deposit copies of my handles, or take the ones lying there (handle objects in the slot are only touched under the lock)
       int sl = (int)r.below(4); pthread_mutex_lock(&g_mailLock); Slot& m = g_mail[sl]; ++t.mailOps;
-      if (!m.full) { m.s = t.s[i]; m.sm = t.sm[i]; m.v = t.v[i]; m.vm = t.vm[i]; m.p = t.p[i]; m.pm = t.pm[i]; hold(m.pm); m.full = true; }
-      else { t.s[i] = m.s; t.sm[i] = m.sm; t.v[i] = m.v; t.vm[i] = m.vm; drop(t.pm[i]); t.p[i] = m.p; t.pm[i] = m.pm; hold(t.pm[i]); drop(m.pm); m.p = (Pay*)0; m.pm = 0; m.s.clear(); m.v.clear(); m.full = false; }
+      if (!m.full) { m.s = t.s[i]; m.sm = t.sm[i]; m.v = t.v[i]; m.vm = t.vm[i]; m.p = t.p[i]; m.pm = t.pm[i]; hold(m.pm); m.x = t.x[i]; m.xm = t.xm[i]; m.full = true; }
+      else { t.s[i] = m.s; t.sm[i] = m.sm; t.v[i] = m.v; t.vm[i] = m.vm; t.x[i] = m.x; t.xm[i] = m.xm; m.x.clear(); drop(t.pm[i]); t.p[i] = m.p; t.pm[i] = m.pm; hold(t.pm[i]); drop(m.pm); m.p = (Pay*)0; m.pm = 0; m.s.clear(); m.v.clear(); m.full = false; }
       pthread_mutex_unlock(&g_mailLock); }
     ++t.ops;
-    if ((o & 63) == 0) for (int x = 0; x < t.P; ++x) { checkS(t.s[x], t.sm[x], "periodic sweep"); checkV(t.v[x], t.vm[x], "periodic sweep"); checkPtr(t.p[x], t.pm[x], "periodic sweep"); }
+    if ((o & 63) == 0) for (int x = 0; x < t.P; ++x) { checkS(t.s[x], t.sm[x], "periodic sweep"); checkV(t.v[x], t.vm[x], "periodic sweep"); checkPtr(t.p[x], t.pm[x], "periodic sweep"); checkX(t.x[x], t.xm[x], "periodic sweep"); }
   }
-  for (int x = 0; x < t.P; ++x) { checkS(t.s[x], t.sm[x], "final sweep"); checkV(t.v[x], t.vm[x], "final sweep"); checkPtr(t.p[x], t.pm[x], "final sweep"); }
+  for (int x = 0; x < t.P; ++x) { checkS(t.s[x], t.sm[x], "final sweep"); checkV(t.v[x], t.vm[x], "final sweep"); checkPtr(t.p[x], t.pm[x], "final sweep"); checkX(t.x[x], t.xm[x], "final sweep"); }
   // destroy this thread's handles here, concurrently with the other threads
   for (int x = 0; x < t.P; ++x) drop(t.pm[x]);
-  delete[] t.s; delete[] t.v; delete[] t.p;
+  delete[] t.s; delete[] t.v; delete[] t.p; delete[] t.x;
   return 0;
 }
 
@@ -163,23 +188,25 @@ static void conc() {
 #endif
     g_mail = new Slot[4]; for (int i = 0; i < 4; ++i) { g_mail[i].full = false; g_mail[i].pm = 0; }
     // originals
-    String* os = new String[MAXP]; SModel osm[MAXP]; Variant* ov = new Variant[MAXP]; VModel ovm[MAXP]; PP* op = new PP[MAXP]; long opm[MAXP];
+    String* os = new String[MAXP]; SModel osm[MAXP]; Variant* ov = new Variant[MAXP]; VModel ovm[MAXP]; PP* op = new PP[MAXP]; long opm[MAXP]; Xml::Variant* ox = new Xml::Variant[MAXP]; XModel oxm[MAXP];
     for (int i = 0; i < P; ++i) {
       osm[i].n = (int)r.range(1, 40); for (int k = 0; k < osm[i].n; ++k) osm[i].b[k] = (char)('a' + r.below(26)); os[i] = String(osm[i].b, (usize)osm[i].n);
       memset(&ovm[i], 0, sizeof ovm[i]); ovm[i].kind = (int)r.below(2);
       if (ovm[i].kind == 0) { ovm[i].n = (int)r.range(1, 40); for (int k = 0; k < ovm[i].n; ++k) ovm[i].b[k] = (char)('A' + r.below(26)); ov[i] = Variant(String(ovm[i].b, (usize)ovm[i].n)); }
       else { ovm[i].ni = (int)r.range(0, 8); List<Variant>& l = ov[i].toList(); for (int k = 0; k < ovm[i].ni; ++k) { ovm[i].items[k] = (long)r.below(1000); l.append(Variant((int64)ovm[i].items[k])); } }
       Pay* n = r.chance(1, 2) ? new Pay : (Pay*)new PayD; op[i] = n; opm[i] = n->id; hold(opm[i]);
+      memset(&oxm[i], 0, sizeof oxm[i]); oxm[i].kind = (int)r.below(3) ? 0 : 1; oxm[i].n = (int)r.range(1, 12); for (int k = 0; k < oxm[i].n; ++k) oxm[i].b[k] = (char)('a' + r.below(26));
+      if (oxm[i].kind == 0) { Xml::Element e; e.line = (int)(oxm[i].line = (long)r.below(1000)); e.column = 1; e.type = String(oxm[i].b, (usize)oxm[i].n); e.attributes.append("k", "v"); ox[i] = Xml::Variant(e); } else ox[i] = Xml::Variant(String(oxm[i].b, (usize)oxm[i].n));
     }
     TState* ts = new TState[MAXT]; __atomic_store_n(&g_go, 0, RLX);
     for (int t = 0; t < T; ++t) { TState& s = ts[t]; memset((void*)&s, 0, sizeof s); s.idx = t; s.P = P; s.seed = r.next(); s.nops = nops; s.cpu = pin;
-      s.s = new String[MAXP]; s.v = new Variant[MAXP]; s.p = new PP[MAXP];
-      for (int i = 0; i < P; ++i) { s.s[i] = os[i]; s.sm[i] = osm[i]; s.v[i] = ov[i]; s.vm[i] = ovm[i]; s.p[i] = op[i]; s.pm[i] = opm[i]; hold(opm[i]); }
+      s.s = new String[MAXP]; s.v = new Variant[MAXP]; s.p = new PP[MAXP]; s.x = new Xml::Variant[MAXP];
+      for (int i = 0; i < P; ++i) { s.s[i] = os[i]; s.sm[i] = osm[i]; s.v[i] = ov[i]; s.vm[i] = ovm[i]; s.p[i] = op[i]; s.pm[i] = opm[i]; hold(opm[i]); s.x[i] = ox[i]; s.xm[i] = oxm[i]; }
       pthread_create(&s.th, 0, concMain, &s); }
     // main drops its own handles while the threads run (the originals are just one more set of handles)
     __atomic_store_n(&g_go, 1, RLX);
     for (int i = 0; i < P; ++i) drop(opm[i]);
-    delete[] os; delete[] ov; delete[] op;
+    delete[] os; delete[] ov; delete[] op; delete[] ox;
     long ops = 0, mods = 0, mail = 0;
     for (int t = 0; t < T; ++t) { pthread_join(ts[t].th, 0); ops += ts[t].ops; mods += ts[t].mods; mail += ts[t].mailOps; }
     setctx("conc/mailbox-cleanup");
